@@ -567,6 +567,28 @@ static std::vector<char> assemble_eb(const vrt::J &row, int natt) {
   EncodeVarint<uint32_t>(1, &b);
   b.Encode((uint8_t)0); b.Encode((uint8_t)5); b.Encode((uint8_t)3); b.Encode((uint8_t)0); EncodeVarint<uint32_t>(0, &b);
   b.Encode((uint8_t)1);
+  if (natt >= 3) {
+    // constrained multi-parallelogram (method 4) under the wrap transform: corrections, then per parallelogram count a list of crease flags (as many as the
+    // model's decoder consumes, served by pattern natt - 3: all clear / all set / alternating), then the bounds
+    const int pat = natt - 3;
+    const vrt::J &cm = row["cm"][pat];
+    long entries = 0;
+    for (int x : row["vidx"].ints()) if (x >= 0) ++entries;
+    b.Encode((int8_t)4); b.Encode((int8_t)1); b.Encode((uint8_t)0); b.Encode((uint8_t)4);
+    for (long i = 0; i < 3 * entries; ++i) b.Encode((int32_t)(2 * (i + 1)));
+    for (int ctx = 0; ctx < 4; ++ctx) {
+      const long nfl = (long)cm["nfl"][ctx].n;
+      EncodeVarint<uint32_t>((uint32_t)nfl, &b);
+      if (nfl > 0) {
+        RAnsBitEncoder fe;
+        fe.StartEncoding();
+        for (long pos = 0; pos < nfl; ++pos) fe.EncodeBit(pat == 0 ? false : pat == 1 ? true : ((pos + ctx) % 2) != 0);
+        fe.EndEncoding(&b);
+      }
+    }
+    b.Encode((int32_t)-50); b.Encode((int32_t)50);
+    return std::vector<char>(b.data(), b.data() + b.size());
+  }
   if (natt == 2) {
     // the same values as corrections of the parallelogram scheme under the wrap transform: exactly one value per vertex the traversal reports (the
     // model's count), then the bounds
@@ -631,8 +653,9 @@ static void probe_eb(const vrt::J &row, long index, EbStats *st) {
   const std::string &pred = row["out"].s;
   // every row twice: with the position attribute (natt = 1) and without any attribute decoder (natt = 0); the header-only rows and the valence
   // rows that the oracle skipped are probed once
-  for (int natt = 2; natt >= 0; --natt) {
+  for (int natt = 5; natt >= 0; --natt) {
     if (natt == 2 && row["ppos"].a.empty()) continue;   // the parallelogram form: rows for which the model predicts positions
+    if (natt >= 3 && (row["cm"].a.size() != 3 || !row["cm"][natt - 3]["err"].s.empty())) continue;   // constrained multi-parallelogram, three flag patterns
     const bool kd = row["mode"].s == "kd";
     const bool ia = row["mode"].s == "ia";
     if (natt == 0 && (row["mode"].s == "lkd" || row["mode"].s == "lkq" || kd || ia)) continue;  // the kd-tree rows have one form only
@@ -658,7 +681,7 @@ static void probe_eb(const vrt::J &row, long index, EbStats *st) {
         .s("pred", pred).s("pk", pred.substr(0, pred.find(':'))).i("pred_np", row["np"].n)
         .arr("pred_faces", row["faces"].ints()).b("ok", d.ok).b("modified", modified).b("bad_alloc", tolerated_bad_alloc)
         .arr("vidx", eb_vidx(d, natt, kd || ia)).arr("pred_vidx", row["vidx"].ints()).s("trav", row["trav"].s)
-        .b("enc_same", enc_same).raw("pts", (kd || ia || natt == 2) && d.ok ? kd_points(*d.pc) : "[]").raw("pred_pts", kd || ia ? kd_pred(row) : natt == 2 ? kd_pred(row, "ppos") : "[]")
+        .b("enc_same", enc_same).raw("pts", (kd || ia || natt >= 2) && d.ok ? kd_points(*d.pc) : "[]").raw("pred_pts", kd || ia ? kd_pred(row) : natt == 2 ? kd_pred(row, "ppos") : natt >= 3 ? kd_pred(row["cm"][natt - 3], "pos") : "[]")
         .i("np", d.ok ? (long long)d.pc->num_points() : 0).arr("faces", faces).raw("sv", d.ok ? struct_json(*d.pc, d.is_mesh) : "{\"np\":0,\"nf\":0,\"maxface\":-1,\"atts\":[]}").end();
     fflush(out.f);
   }
